@@ -69,6 +69,25 @@ class Report:
         self.rules.append(r)
         return r
 
+    def adopt(self, other, mapping, why):
+        """Take over rules evaluated for a sibling property: they are necessary conditions of this property too.
+        mapping: sibling rule id -> new rule id (the sibling id is kept in the description)."""
+        for r in other.rules:
+            if r.rid not in mapping:
+                continue
+            nr = Rule(self, mapping[r.rid], '[shared with %s: %s] %s' % (r.rid, why, r.desc), r.floor)
+            for i in r.instances:
+                nr.instances.append(Instance(mapping[r.rid], '%s: %s' % (r.rid, i.name), i.status, i.detail, i.where, i.witness, i.nontrivial))
+            nr.broken = list(r.broken)
+            self.rules.append(nr)
+        for u in other.units:
+            if u not in self.units:
+                self.units.append(u)
+        self.functions |= other.functions
+        for d in other.tolerated:
+            if d not in self.tolerated:
+                self.tolerated.append(d)
+
     def analysed(self, *fns):
         for f in fns:
             if f is not None:
